@@ -148,15 +148,23 @@ def check_multi(case, res):
         for mth in range(12):
             acc += 24 * dim[mth]
             ends.append(acc)
-    n_months = 12 * len(years)
+    n_months = case.get("months", 12 * len(years))  # a horizon that ends inside the last load year is allowed
     res["evals"] += 1
     try:
-        hl = hybrid.make_hybrid(loads, n_months, years=list(years))
+        if case.get("via_ghe"):
+            # through a real exchanger object (GHE(..., load_years=[...])), as the design classes build it
+            from vf import ghe_factory
+
+            coords = [(0.0, 0.0), (0.0, 5.0), (5.0, 0.0), (5.0, 5.0)]
+            g = ghe_factory.make_ghe(coords, H=97.5, loads=loads, months=n_months, load_years=list(years), gfunc=ghe_factory.table_gfunction(coords, 5.0, [60.0, 97.5, 135.0], 0.075))
+            hl = g.hybrid_load
+        else:
+            hl = hybrid.make_hybrid(loads, n_months, years=list(years))
     except Exception as e:  # noqa: BLE001
         res["violations"].append(core.viol("hybrid_load_raised", case, msg=f"HybridLoad(years={years}) raised {type(e).__name__}: {e}", exc=type(e).__name__, multi_year=True))
         return
     try:
-        en, _ = hybrid.month_energies(hl, n_months, ends)
+        en, _ = hybrid.month_energies(hl, n_months, ends[:n_months])
     except LookupError as e:
         res["violations"].append(core.viol("no_month_end_breakpoint", case, msg=f"years={years}: no breakpoint at the end of simulated month {e.args[0]} (hour {ends[e.args[0] - 1]})",
                                            month=((e.args[0] - 1) % 12) + 1, multi_year=True, has_leap=any(y % 4 == 0 for y in years)))
@@ -274,7 +282,13 @@ def main(run: core.Run, only=None):
     run.drive(ar, family="caller-array-used-twice")
     my = [{"years": ys, "scales": sc, "patterns": pt} for ys in ([2017, 2018, 2019], [2021, 2022], [2018, 2019, 2021, 2022]) for sc, pt in (([1.0, 1.3, 0.8, 1.1], [8, 45, 100]), ([0.7, 1.0, 1.6, 0.9], [70, 70, 38]))]
     my += [{"years": ys, "scales": [1.0, 1.3, 0.8], "patterns": [8, 45, 100]} for ys in ([2019, 2020, 2021], [2020, 2021])]
+    my += [{"years": ys, "scales": [1.0, 1.4, 0.7], "patterns": [8, 45, 100], "months": mo, "via_ghe": True} for ys, mo in (([2021, 2022], 18), ([2021, 2022], 24), ([2017, 2018, 2019], 30))]
     run.drive(my, family="several-load-years")
+    # nearly constant loads with the maximum held through the whole last / first day of the month (peak windows longer than a day)
+    flat = [{"profile": "patterns", "patterns": [p] * 12, "horizons": [12, 25]} for p in (
+        {"dir": "c", "cday": "last", "shape": "24h", "base": 0.95, "ch": 0, "pc": 6.0, "ph": 5.0}, {"dir": "h", "hday": "last", "shape": "24h", "base": 0.95, "hh": 0, "pc": 6.0, "ph": 5.0},
+        {"dir": "c", "cday": "first", "shape": "24h", "base": 0.95, "ch": 0, "pc": 6.0, "ph": 5.0}, {"dir": "c", "cday": "last", "shape": "24h", "base": 0.8, "ch": 0, "pc": 6.0, "ph": 5.0})]
+    run.drive(flat, family="day-long-peaks-on-nearly-constant-loads")
     # small plants: a direction whose monthly peak is below 100 W
     small = [{"profile": "patterns", "patterns": [dict(A[i], pc=pc, ph=ph)] * 12, "horizons": [12, 25]} for i in sel for pc, ph in ((0.06, 0.05), (6.0, 0.04), (0.09, 5.0))]
     run.drive(small, family="peaks-below-100-W")
